@@ -391,6 +391,18 @@ func IPv6FindUpperProtocol(packet []byte) (nextHeader uint8, offset int, isFragm
 			return nextHeader, offset, isFragment, anyFragment, nil
 		}
 	}
+
+	// The walk limit was reached. If yet another extension header follows, the upper layer protocol was
+	// never found; reporting the extension header as the protocol would let the rest of the chain hide
+	// a transport header from the firewall. The truncation check above only runs for a terminal header
+	// seen inside the loop, so repeat it here for the header that follows the last one walked.
+	switch nextHeader {
+	case 0, 43, 44, 51, 60:
+		return nextHeader, offset, isFragment, anyFragment, ErrIPv6CouldNotFindPayload
+	}
+	if offset > len(packet) {
+		return nextHeader, offset, isFragment, anyFragment, ErrIPv6CouldNotFindPayload
+	}
 	return nextHeader, offset, isFragment, anyFragment, nil
 }
 
